@@ -16,7 +16,7 @@ PROP = 'C13'
 GROUPS = ('g1', 'G2')          # names that differ in the case of their first letter:
 LOCS = ('l1', 'L0')            # the directory orders names as strings, case-sensitively
 PLACES = [(g, l) for g in GROUPS for l in LOCS]
-MAX_AGE = 300
+MAX_AGE = 300.5          # the configured age need not be a whole number of seconds
 
 
 class VTime:
@@ -146,7 +146,7 @@ def replay_directory(pre, post, op, t0, dt):
     symx.Ctx.cur = None
     saved = light_mod.time
     try:
-        net = world.configure((), extra_settings={'light_gc_time': MAX_AGE}, discover=False)
+        net = world.configure((), extra_settings={'light_gc_time': str(MAX_AGE)}, discover=False)
         vt = VTime(t0)
         light_mod.time = vt
         ls = net.light_set
